@@ -89,6 +89,12 @@ type Thread struct {
 	done    bool
 	blocked func() bool // non-nil: thread waits until it returns true
 	name    string
+	// partial-order reduction bookkeeping
+	opKeys        []interface{} // set by the caller of yield: objects of the pending visible operation
+	pendKeys      []interface{}
+	pendGlobal    bool
+	touched       []interface{}
+	touchedGlobal bool
 }
 
 func (th *Thread) ctx() *TermCtx { return th.p.ctx }
